@@ -487,25 +487,48 @@ func runConc(a []string) {
 		f := strings.Fields(line)
 		n++
 		dir := filepath.Join(root, fmt.Sprintf("c%d", n))
-		switch f[0] {
-		case "crun":
-			fmt.Fprintln(out, "=", concRun(dir, atoi(f[1]), int(atoi(f[2])), int(atoi(f[3])), f[4]))
-		case "cpause":
-			fmt.Fprintln(out, "=", concPause(dir, f[1:]))
-		case "cstress":
-			fmt.Fprintln(out, "=", concStress(dir, int(atoi(f[1])), int(atoi(f[2]))))
-		case "creindex":
-			fmt.Fprintln(out, "=", concReindex(dir, int(atoi(f[1]))))
-		case "cquerystress":
-			fmt.Fprintln(out, "=", concQueryStress(dir, int(atoi(f[1])), int(atoi(f[2]))))
-		case "cgcstress":
-			fmt.Fprintln(out, "=", concGCStress(dir, int(atoi(f[1])), int(atoi(f[2]))))
-		case "csyncack":
-			fmt.Fprintln(out, "=", concSyncAck(dir, int(atoi(f[1]))))
-		case "cedge":
-			fmt.Fprintln(out, "=", edgeBatch(dir))
-		case "cpollstress":
-			fmt.Fprintln(out, "=", concPollStress(dir, int(atoi(f[1])), int(atoi(f[2]))))
+		// every workload runs under a watchdog: calls that never return (a deadlock) are a failure of the run, not of the harness
+		resc := make(chan string, 1)
+		go func() {
+			defer func() {
+				if r := recover(); r != nil {
+					resc <- fmt.Sprintf("err Panic a call of the workload panicked: %v", r)
+				}
+			}()
+			switch f[0] {
+			case "crun":
+				resc <- concRun(dir, atoi(f[1]), int(atoi(f[2])), int(atoi(f[3])), f[4])
+			case "cpause":
+				resc <- concPause(dir, f[1:])
+			case "cstress":
+				resc <- concStress(dir, int(atoi(f[1])), int(atoi(f[2])))
+			case "creindex":
+				resc <- concReindex(dir, int(atoi(f[1])))
+			case "cquerystress":
+				resc <- concQueryStress(dir, int(atoi(f[1])), int(atoi(f[2])))
+			case "cgcstress":
+				resc <- concGCStress(dir, int(atoi(f[1])), int(atoi(f[2])))
+			case "csyncack":
+				resc <- concSyncAck(dir, int(atoi(f[1])))
+			case "cedge":
+				resc <- edgeBatch(dir)
+			case "cpollstress":
+				resc <- concPollStress(dir, int(atoi(f[1])), int(atoi(f[2])))
+			default:
+				resc <- "err UnknownOp"
+			}
+		}()
+		limit := 15 * time.Minute
+		if f[0] == "crun" || f[0] == "cpause" || f[0] == "cedge" {
+			limit = 150 * time.Second
+		}
+		select {
+		case r := <-resc:
+			fmt.Fprintln(out, "=", r)
+		case <-time.After(limit):
+			fmt.Fprintln(out, "= err Hang the workload did not finish within", limit, "- calls that never return (a deadlock)")
+			out.Flush()
+			os.Exit(0)
 		}
 		out.Flush()
 	}
